@@ -1035,6 +1035,9 @@ class RTCPeerConnection(AsyncIOEventEmitter):
                 self.__sctp.setTransport(primaryTransport)
                 self.__sctp._bundled = True
 
+            # the primary transport may already be shared (max-bundle), keep it
+            oldTransports.discard(primaryTransport)
+
             # stop and discard old ICE transports
             for dtlsTransport in oldTransports:
                 await dtlsTransport.stop()
